@@ -1,5 +1,6 @@
 (* C13 property theorems only. *)
-From V Require Import lib.Verdict C13.Model C13.Proofs C13.ProofsCla C13.ProofsLin.
+From Coq Require Import Permutation.
+From V Require Import lib.Verdict C13.Model C13.Proofs C13.ProofsCla C13.ProofsLin C13.ProofsSim.
 
 (* ---- the index, calls applied one after the other (all call sequences, all services/registries) *)
 
@@ -71,19 +72,58 @@ Theorem C13_linearizable_refuted_lost_update :
 Proof. exact k1_witness. Qed.
 Print Assumptions C13_linearizable_refuted_lost_update.
 
-(* partial: over the bounded universe (11 calls of every kind on 2 registries x 2 services, 5 start
-   states) every interleaving of two calls that cannot unlink a service is linearizable ... *)
-Theorem C13_linearizable_partial : forall prefix calls sched,
+(* partial, UNBOUNDED: any number of concurrent calls, any start state, any interleaving of their
+   critical sections.  If no unlinking critical section (DeleteServiceShard(preserveKeys=false),
+   DeleteShard, PruneShard) runs while another call holds the EndpointShards of a service it touches
+   (= that call is between GetOrCreateEndpointShard and its write), the final content is that of the
+   sequential run of the same calls in the order of their last critical sections *)
+Theorem C13_linearizable_partial : forall st0 calls sched st' ts',
+  run_sched st0 (map Start calls) sched = (st', ts') -> all_done ts' = true ->
+  sched_ok st0 (map Start calls) sched ->
+  exists p, Permutation p calls /\ same_content st' (run_ops st0 p).
+Proof. exact linearizable_unbounded. Qed.
+Print Assumptions C13_linearizable_partial.
+
+(* static form: no call of the batch can unlink a service for which the batch has a non-empty update *)
+Theorem C13_linearizable_partial_static : forall st0 calls sched st' ts',
+  static_ok calls ->
+  run_sched st0 (map Start calls) sched = (st', ts') -> all_done ts' = true ->
+  exists p, Permutation p calls /\ same_content st' (run_ops st0 p).
+Proof. exact linearizable_static. Qed.
+Print Assumptions C13_linearizable_partial_static.
+
+(* in particular: any number of updates (empty or not) and key-preserving deletes *)
+Theorem C13_linearizable_partial_no_unlinking : forall st0 calls sched st' ts',
+  (forall o, In o calls -> unlinking o = false) ->
+  run_sched st0 (map Start calls) sched = (st', ts') -> all_done ts' = true ->
+  exists p, Permutation p calls /\ same_content st' (run_ops st0 p).
+Proof. exact linearizable_no_unlinking. Qed.
+Print Assumptions C13_linearizable_partial_no_unlinking.
+
+(* same_content = the same services are linked and every registry's cell is the same *)
+Theorem C13_same_content_observable : forall a b, same_content a b ->
+  (forall sk k, cell a sk k = cell b sk k) /\ (forall sk, linked a sk = linked b sk).
+Proof. intros a b H. split; [exact (same_content_cell a b H) | exact (same_content_linked a b H)]. Qed.
+Print Assumptions C13_same_content_observable.
+
+(* the hypothesis is exactly what the K1 schedule violates *)
+Theorem C13_k1_is_the_excluded_overlap :
+  ~ sched_ok (run_ops init k1_prefix) (map Start k1_calls) k1_sched.
+Proof. exact k1_is_the_excluded_overlap. Qed.
+Print Assumptions C13_k1_is_the_excluded_overlap.
+
+(* bounded cross-check by evaluation (11 calls of every kind on 2 registries x 2 services, 5 start
+   states, all 20 interleavings of two calls; 4 calls, 2 start states, all 1680 interleavings of three) *)
+Theorem C13_linearizable_bounded_pairs : forall prefix calls sched,
   In prefix starts -> In calls (pairs universe) -> safe_calls calls = true -> In sched scheds2 ->
   lin_ok prefix calls sched = true.
 Proof. exact linearizable_partial_pairs. Qed.
-Print Assumptions C13_linearizable_partial.
+Print Assumptions C13_linearizable_bounded_pairs.
 
-(* ... and of three such calls (4 calls, 2 start states, all 1680 interleavings) *)
-Theorem C13_linearizable_partial_triples : forall prefix calls sched,
+Theorem C13_linearizable_bounded_triples : forall prefix calls sched,
   In prefix starts3 -> In calls (triples universe3) -> In sched scheds3 -> lin_ok prefix calls sched = true.
 Proof. exact linearizable_partial_triples. Qed.
-Print Assumptions C13_linearizable_partial_triples.
+Print Assumptions C13_linearizable_bounded_triples.
 
 (* every offending pair contains an unlinking call overlapping a non-empty update; the schedule
    enumerations are the 20 resp. 1680 distinct interleavings *)
